@@ -80,7 +80,7 @@ def decorate(rng, src, allow_slashes_in_block=True):
             elif k < 0.22:
                 buf.append('\n\n')
             elif k < 0.26:
-                buf.append(' \\\n')
+                buf.append(' \\\n' * rng.choice([1, 1, 2, 3]))
             elif k < 0.29:
                 buf.append(' // trailing "comment" /* not a block\n')
             else:
@@ -89,8 +89,12 @@ def decorate(rng, src, allow_slashes_in_block=True):
             prev = t
         out.append(''.join(buf) + (' // end' if rng.random() < 0.1 else ''))
     text = '\n'.join(out)
-    if rng.random() < 0.2:
+    k_ = rng.random()
+    if k_ < 0.2:
         text = text.replace('\n', '\r\n')
+    elif k_ < 0.45:
+        # a file edited on two systems: some of its lines (spliced ones included) end in CR-LF
+        text = re.sub(r'\n', lambda mo: '\r\n' if rng.random() < 0.4 else '\n', text)
     return text
 
 
